@@ -5,4 +5,6 @@ func init() {
 		Rule: "per run: 0-3 external + 0-2 internal extensions with drawn subscription sets, 2-6 consecutive invocations with/without trace header, tape-ordered returns of runtime and extensions, one party stalled (ms .. 200 s), lock-grant reordering 0/25/50%; non-trivial = at least one INVOKE subscriber existed and the completion barrier was compared against its return to next; distinct = distinct canonical log hash"})
 	reg(&PropSpec{ID: "C03", Level: "exploration", QuickRuns: 8000, QuickSecs: 45, ThorRuns: 2000000, ThorSecs: 1500,
 		Rule: "per run: fixture directory with 0-3 executables plus 0-2 directories (with nested files), 0-2 internal extensions, drawn subscription sets, tape order of register/next calls of all parties (50-90% non-default order), one party stalled before register or before its first poll (ms .. 280 s), optional late-registering internal extension, first caller arrives first; non-trivial = every party arrived and the delivery-at-quiescence obligation was evaluated; distinct = distinct canonical log hash"})
+	reg(&PropSpec{ID: "C06", Level: "fault_enumeration", Cells: 162, QuickRuns: 162 * 12, QuickSecs: 60, ThorRuns: 162 * 4000, ThorSecs: 1500,
+		Rule: "enumerated matrix: 0-2 extensions x faulty party (runtime / each extension) x protocol point (runtime: before first poll, after init/error, after poll, after response, idle, inline re-init; extension: before register, after register, after first event, after init/error, after exit/error, failed launch) x exit kind (0, n>0, signal / EACCES, ENOENT, other); every cell is executed with many tape-drawn schedules (who polls when, event delivery order, lock-grant reordering); 4 invocations per run (victim, recovery, two more); non-trivial = a fault hit an invocation and the failure table was applied; distinct = distinct canonical log hash"})
 }
